@@ -311,6 +311,22 @@ let model_view (rs : PagedReader.pr option) (m : MetaFile.file_meta) (blobs : Me
   Stdlib.List.iter (fun bl -> Buffer.add_string b (" # bl " ^ blob_view rs bl)) blobs;
   Buffer.contents b
 
+(* WAPIF V:<crate version hex> T64:<bits>=<text hex>,... T32:<bits>=<text hex>,... <calls> : the whole writer
+   (Model/WriterFull.v): the XML is generated by the model (XmlGen.gen_root after the float texts were filled in
+   from the table, which holds Rust's Display of the bit patterns - an oracle); nothing is borrowed from the
+   implementation's file.  A float whose text is not in the table makes the case answer `missing-float`. *)
+let full_mode : (string * (string, string) Hashtbl.t * (string, string) Hashtbl.t) option ref = ref None
+let missing_float = ref false
+let missing_key = ref ""
+
+let table_of (s : string) : (string, string) Hashtbl.t =
+  let h = Hashtbl.create 64 in
+  Stdlib.List.iter (fun kv ->
+      match Stdlib.String.index_opt kv '=' with
+      | Some i -> Hashtbl.replace h (Stdlib.String.sub kv 0 i) (Stdlib.String.sub kv (i+1) (Stdlib.String.length kv - i - 1))
+      | None -> ()) (Stdlib.String.split_on_char ',' s);
+  h
+
 let run_wapi (toks : string list) : string =
   let d0 = Device.dev_init [] None in
   let (d1, r) = PagedWriter.pw_new d0 in
@@ -336,14 +352,24 @@ let run_wapi (toks : string list) : string =
              if c = WriterApi.PcDrop || c = WriterApi.ImDrop then skipping := false
            end else begin
            skipping := false;
-           let gen_xml (_ : MetaFile.file_meta) : BinNums.coq_N list Prelude.res =
+           let gen_xml (m : MetaFile.file_meta) : BinNums.coq_N list Prelude.res =
+             match !full_mode with
+             | Some (_, t64, t32) ->
+               let look tab digits canon bits =
+                 let k = hex_of_n digits (canon bits) in
+                 (match Hashtbl.find_opt tab k with
+                  | Some t -> bytes_of_hex t
+                  | None -> missing_float := true; missing_key := k; []) in
+               WriterFull.gen_xml_full (look t64 16 Floats.canon64) (look t32 8 Floats.canon32) m
+             | None ->
              match parts with
              | _ :: x :: _ when Stdlib.String.length x > 0 && x.[0] = '!' ->
                Prelude.Err (err_of_name (Stdlib.String.sub x 1 (Stdlib.String.length x - 1)))
              | _ :: x :: _ -> Prelude.Ok (bytes_of_hex x)
              | _ -> Prelude.Ok [] in
            let meta_before = WriterApi.ws_meta !st in
-           let (pw', r) = Prog.wrun (WriterApi.wapi_step gen_xml [] !st c) !pw in
+           let libv = match !full_mode with Some (v, _, _) -> WriterFull.lib_version_text (bytes_of_hex v) | None -> [] in
+           let (pw', r) = Prog.wrun (WriterApi.wapi_step gen_xml libv !st c) !pw in
            pw := pw';
            match r with
            | Prelude.Ok (st', cr) ->
@@ -373,7 +399,18 @@ let run_wapi (toks : string list) : string =
   | Prelude.Err k -> "new:e" ^ err_name k ^ " | " ^ dev_summary d1
   | Prelude.Panic -> "new:P"
 
+let strip_prefix p t = Stdlib.String.sub t (Stdlib.String.length p) (Stdlib.String.length t - Stdlib.String.length p)
+
 let run (kind : string) (toks : string list) : string option =
   match kind with
-  | "WAPI" -> Some (run_wapi toks)
+  | "WAPI" -> full_mode := None; Some (run_wapi toks)
+  | "WAPIF" ->
+    (match toks with
+     | v :: t64 :: t32 :: calls ->
+       full_mode := Some (strip_prefix "V:" v, table_of (strip_prefix "T64:" t64), table_of (strip_prefix "T32:" t32));
+       missing_float := false;
+       let out = run_wapi calls in
+       full_mode := None;
+       Some (if !missing_float then "missing-float " ^ !missing_key else out)
+     | _ -> failwith "bad WAPIF case")
   | _ -> None
